@@ -703,7 +703,13 @@ def history_step(ctx, g, el, step):
         dh = float(np.max(np.abs(h2 - h)))
         dl = max(float(np.max(np.abs(lat2 - lats))),
                  float(np.max(np.abs(lon_diff(lon2, lon)))))
-        ctx.check(dh <= TOL_M and dl <= TOL_DEG,
+        # The 1 cm claim is made for the offered models.  A derived ellipsoid
+        # may be far more eccentric or larger (Jupiter's radius with e = 0.27):
+        # the iteration stops at |dB| <= 1e-10 rad, which leaves up to
+        # ~1e-10 * (a + h) / (1 - e^2) metres; it is checked against that
+        # scale (never tighter than the claimed 1 cm).
+        tol_m = max(TOL_M, 4e-10 * (A + abs(h)) / (1.0 - float(E) ** 2))
+        ctx.check(dh <= tol_m and dl <= TOL_DEG,
                   "roundtrip/geodetic-cart/derived", lambda: (
                       "%s: errors %.3e m, %.3e deg" % (info(), dh, dl)))
     elif op == "ellipsoid2d":
